@@ -305,7 +305,7 @@ ends or when the own context of every one of those calls has ended (`Round.gaveU
 `batch_wait_watches_call_context` (the wait for the response) these are all the waits of SendBatch. -/
 theorem batch_queue_and_sleep_watch_call_contexts_in_source :
     GV.Gen.Exits.sendBatchWaitContexts =
-      ["QueueBatch:contextOfCalls(ctx, rpcs)", "sleepAndIncreaseBackoff:contextOfCalls(ctx, retries)"] := by decide
+      ["QueueBatch:contextOfCalls(ctx, rpcs)", "sleepAndIncreaseBackoff:contextOfCalls(ctx, _)"] := by decide
 
 /-- Regenerated from admin_client.go (`checkProcedureWithBackoff`, the wait behind CreateTable,
 DeleteTable, EnableTable and DisableTable): the procedure-state poll and the sleep between two
